@@ -151,13 +151,32 @@ func (op *localFileOp) reloadFileEntryHelper(name string) (reloaded bool, err er
 	return false, os.ErrNotExist
 }
 
+// _maxLoadAttempts bounds how often lockHelper reloads an entry which was
+// evicted from the in-memory map between the reload check and the load.
+const _maxLoadAttempts = 5
+
 // lockHelper runs f under protection of entry level RWMutex.
 func (op *localFileOp) lockHelper(
 	name string, l lockLevel, f func(name string, entry FileEntry)) (err error) {
-	if _, err = op.reloadFileEntryHelper(name); err != nil {
-		return err
+	// An entry can be evicted from the in-memory map (LRU) after
+	// reloadFileEntryHelper found it there and before it is loaded below, while
+	// its file is still on disk (eviction never deletes persisted files).
+	// Reload from disk and try again instead of reporting an existing file as
+	// missing; only reloadFileEntryHelper decides that a file does not exist.
+	for i := 0; i < _maxLoadAttempts; i++ {
+		var loaded bool
+		if loaded, err = op.tryLockHelper(name, l, f); err != nil || loaded {
+			return err
+		}
 	}
-	var loaded bool
+	return os.ErrNotExist
+}
+
+func (op *localFileOp) tryLockHelper(
+	name string, l lockLevel, f func(name string, entry FileEntry)) (loaded bool, err error) {
+	if _, err = op.reloadFileEntryHelper(name); err != nil {
+		return false, err
+	}
 	switch l {
 	case _lockLevelPeek:
 		loaded = op.s.fileMap.LoadForPeek(name, func(name string, entry FileEntry) {
@@ -181,10 +200,7 @@ func (op *localFileOp) lockHelper(
 			f(name, entry)
 		})
 	}
-	if !loaded {
-		return os.ErrNotExist
-	}
-	return err
+	return loaded, err
 }
 
 func (op *localFileOp) deleteHelper(
